@@ -138,7 +138,7 @@ class Patterns:
     replacement = LazyPattern(r'^([^\\$]|\\{2}|\\\$|\$\d+)*$')
     sequence_type = LazyPattern(r'\s?([()?*+,])\s?')
     unicode_escape = LazyPattern(r'(?:\\u([0-9A-Fa-f]{4})|\\U([0-9A-Fa-f]{8}))')
-    wrong_escape = LazyPattern(r'%(?![a-fA-F\d]{2})')
+    wrong_escape = LazyPattern(r'%(?![a-fA-F0-9]{2})')
     xml_newlines = LazyPattern('\r\n|\r|\n')
 
     # Regex patterns related to names and namespaces
